@@ -53,6 +53,13 @@ def grammars_for(tier, rnd):
         tg = lxc.token_grammar(ts, 'tokens')
         gs.append(tg)
     for g in gg.err_core()[: (3 if q else 8)]: gs.append(g)
+    # symbols and rules declared in another order than they are used (root not first, rules of one nonterminal apart): every internal
+    # index mapping (declared order, sorted order) is then a real permutation; plus random LR(1) grammars, which list rules in any order
+    multi = [g for g in gg.core_grammars() if len(g.nts) >= 2 and ref_lr1.build(g).lr1]
+    rnd.shuffle(multi)
+    for g in multi[: (4 if q else 16)]: gs.append(gg.shuffle_symbols(g, rnd, extras=False))
+    st = gg.grammar_stream(rnd, want_lr1=1.0)
+    for _ in range(4 if q else 24): gs.append(next(st)[0])
     for g in gg.core_grammars()[:(4 if q else 12)]:
         if ref_lr1.build(g).lr1: gs.append(gg.to_custom_lexer(g, rnd))
     deep = [simple('S->( S ) | a'), simple('L->a L | eps'), simple('L->L a | eps'), simple('E->T + E | T\nT->i | ( E )')]
